@@ -1,7 +1,7 @@
 (* Executable entry points of the C16 cache-protocol model for extraction.
    ExtrOcamlBasic only; nat stays a Coq datatype. *)
 From Verif Require Import Cache.Model.
-From Coq Require Import List.
+From Coq Require Import List Bool Arith.
 Import ListNotations.
 
 Definition c16_cfg (z m : nat) (fs : list nat) : cfg :=
@@ -31,4 +31,57 @@ Definition c16_recover (c : cfg) (w : world) (p : nat) : option world :=
   match step c w (Spawn p KFetch) with
   | Some w1 => run_clean c (clean_fuel c (st w1)) w1 (length (threads w))
   | None => None
+  end.
+
+(* ---- the acceptance loop of the driver, in Coq (so that it can also be run by vm_compute) ---- *)
+
+(* labels come with a flag: stat-like observations the model does not expect at the current pc
+   (MkdirAll's pre-stats, the child's own verification reads) are skipped and counted *)
+Fixpoint c16_accept (c : cfg) (ws : list world) (ls : list (label * bool)) (k skipped : nat)
+  : (list world * nat) + nat :=
+  match ls with
+  | [] => inl (ws, skipped)
+  | (l, optional) :: r =>
+      match firstn 8 (flat_map (fun w => accept1 c w l) ws) with
+      | [] => if optional then c16_accept c ws r (S k) (S skipped) else inr k
+      | ws' => c16_accept c ws' r (S k) skipped
+      end
+  end.
+
+Fixpoint ins_pair (x : nat * nat) (l : list (nat * nat)) : list (nat * nat) :=
+  match l with
+  | [] => [x]
+  | y :: r =>
+      if Nat.ltb (fst x) (fst y) || (Nat.eqb (fst x) (fst y) && Nat.leb (snd x) (snd y))
+      then x :: l else y :: ins_pair x r
+  end.
+Definition sort_pairs (l : list (nat * nat)) : list (nat * nat) := fold_right ins_pair [] l.
+Definition flat_pairs (l : list (nat * nat)) : list nat := flat_map (fun p => [fst p; snd p]) (sort_pairs l).
+Definition optl (o : option nat) : list nat := match o with Some n => [n] | None => [] end.
+
+Fixpoint settle_all (c : cfg) (w : world) (n : nat) : world :=
+  match n with O => w | S m => settle c 3 (settle_all c w m) m end.
+
+(* canonical observable summary of a final world: zip, ztmp, modf, mtmp, marker, dir,
+   per-thread results, per-process GetZip counts, [complete?; recovery outcome] *)
+Definition c16_summary (c : cfg) (w0 : world) (npids : nat) : list (list nat) :=
+  let n := length (threads w0) in
+  let w := settle_all c w0 n in
+  let s := st w in
+  let res := map (c16_result w) (seq 0 n) in
+  let quiet := forallb (fun r => negb (Nat.eqb r 4)) res in
+  let recov := if quiet then
+                 match c16_recover c w (S npids) with
+                 | Some w' => if completeb c (st w') && Nat.eqb (c16_result w' n) 0 then 1 else 2
+                 | None => 3
+                 end
+               else 0 in
+  [ optl (zip s); flat_pairs (ztmp s); optl (modf s); flat_pairs (mtmp s); [if marker s then 1 else 0];
+    match dir s with None => [0] | Some l => 1 :: flat_pairs l end;
+    res; map (fun p => gz (ps w p)) (seq 0 npids); [if completeb c s then 1 else 0; recov] ].
+
+Definition c16_run (c : cfg) (ls : list (label * bool)) (npids : nat) : (list (list (list nat)) * nat) + nat :=
+  match c16_accept c [world0] ls 0 0 with
+  | inl (ws, skipped) => inl (map (fun w => c16_summary c w npids) ws, skipped)
+  | inr k => inr k
   end.
